@@ -31,12 +31,20 @@ contract(SV + 'compute_lambda_sum#int', props=['C18'],
          params=dict(lambda_parameter='int', **_CLS), returns='real', requires=_CLS_PRE,
          ensures=[("scalar-times-occurrences", "result == lambda_parameter * (num_blocks - block_id)")])
 
+# Lambda_class(b, r, c): the weight of a Toeplitz class under a matrix-valued lambda = sum of lambda over its W-b positions
+# (opaque outside compute_lambda_sum#array, so that the Z-step's invariants match it by congruence)
+specfn('lam_class', sig=(['arr2[real]'] + ['int'] * 5, 'real'),
+       native="lambda L, b, r, c, N, W: sum(float(L[j*N + r, (b + j)*N + c]) for j in range(W - b))")
+
 contract(SV + 'compute_lambda_sum#array', props=['C02', 'C18', 'C19'],
          params=dict(lambda_parameter='arr2[real]', **_CLS), returns='real',
          requires=_CLS_PRE + ["lambda_parameter.shape[0] == block_size*num_blocks",
                               "lambda_parameter.shape[1] == block_size*num_blocks"],
          ensures=[("sum-over-class-positions", "result == rsum(lambda j: lambda_parameter[j*block_size + row, "
                    "(block_id + j)*block_size + column], num_blocks - block_id)"),
+                  # names the value just characterised: Lambda_class(b, r, c) := what this function returns (a function of its
+                  # arguments by the clause above), so that callers can refer to it without unfolding the sum
+                  ("def:class-weight", "result == lam_class(lambda_parameter, block_id, row, column, block_size, num_blocks)"),
                   # a matrix filled with one value gives exactly what the scalar form gives (over the reals)
                   ("constant-matrix-equals-scalar-form",
                    "implies(forall(lambda a, b: implies(0 <= a and a < lambda_parameter.shape[0] and 0 <= b and "
@@ -181,20 +189,12 @@ def _zupdate(variant, lam_kind, lam_expr, extra_pre, schema):
 
 _zupdate('#float', 'real', "args.sparsity_weight * (num_blocks - b2)", ["args.sparsity_weight >= 0"], {})
 
-# matrix-valued lambda: frame / exception-freedom contract only (the class-value invariant is proved for the
-# scalar form; for the matrix form Lambda_class is carried by compute_lambda_sum#array's own postcondition)
-contract(SV + 'admm_update_z#array', props=['C02', 'C19'],
-         params=dict(args='obj:ADMMArguments', u='arr1[real]', x='arr1[real]'), returns='arr1[real]',
-         requires=["args.rho > 0", "args.window_size >= 1", "args.num_data_series >= 1",
-                   "args.window_size * args.num_data_series < 67108864", "u.shape[0] == x.shape[0]",
-                   "2*x.shape[0] == args.window_size*args.num_data_series*(args.window_size*args.num_data_series + 1)",
-                   "args.sparsity_weight.shape[0] == args.window_size*args.num_data_series",
-                   "args.sparsity_weight.shape[1] == args.window_size*args.num_data_series",
-                   "forall(lambda a, b: args.sparsity_weight[a, b] >= 0)"],
-         ghost={'schema': {'ADMMArguments.sparsity_weight': 'arr2[real]'}},
-         ensures=["result.shape[0] == x.shape[0]", "fresh(result)", "unchanged(u, x, args, args.sparsity_weight)"],
-         loops={1: dict(inv=[], modifies=['z_update']), 2: dict(inv=[], modifies=['z_update']),
-                3: dict(inv=["start_column <= col"], modifies=['z_update'])})
+# matrix-valued lambda: the same class-value invariant with the class weight Lambda_class carried by compute_lambda_sum#array
+_zupdate('#array', 'arr2[real]', "lam_class(args.sparsity_weight, b2, r2, c2, block_size, num_blocks)",
+         ["args.sparsity_weight.shape[0] == args.window_size*args.num_data_series",
+          "args.sparsity_weight.shape[1] == args.window_size*args.num_data_series",
+          "forall(lambda a, b: args.sparsity_weight[a, b] >= 0)"],
+         {'ADMMArguments.sparsity_weight': 'arr2[real]'})
 
 _NW = "(args.window_size * args.num_data_series)"
 _SIZES = ["2*x.shape[0] == %s*(%s + 1)" % (_NW, _NW), "z.shape[0] == x.shape[0]", "u.shape[0] == x.shape[0]"]
